@@ -1,6 +1,7 @@
 import TSSVerif.Driver.Wire
 import TSSVerif.Driver.Rbc
 import TSSVerif.Driver.Classify
+import TSSVerif.Driver.Sss
 /-!
 Line-protocol driver: one operation per input line, one answer per output line. Imports `Model/`
 and `Driver/` only (core Lean), so it links as a native executable; the definitions it runs are the
@@ -15,6 +16,7 @@ def step (st : DState) (line : String) : DState × String :=
   let toks := (line.splitOn " ").filter (· ≠ "")
   match toks with
   | "wire" :: rest => (st, (wireOp rest).getD "bad-op")
+  | "sss" :: rest => (st, (sssOp rest).getD "bad-op")
   | "cls" :: rest => (st, (clsOp rest).getD "bad-op")
   | "rbc" :: inst :: rest =>
     match inst.toNat? with
